@@ -272,7 +272,7 @@ def main():
     rule("R19.a", "bin/newpolicy.sh: file descriptor N is opened on $POLICYDB/LOCK by a top-level `exec N<>...` before `main` is called; `main` is the only top-level command besides variable assignments and that exec; the first command of main is `flock [-n] N || exit <non-zero>` with the same N and without -s/-u (exclusive, non-blocking).")
     rule("R19.b", "Commands that write the link `current` ($CURRENT, $POLICYDB/current, .../policies/current: rm/ln/mv/cp/touch/... or a redirection) occur only inside handle_success of newpolicy.sh; no other shell script under bin/ writes it.")
     rule("R19.c", "handle_success is called at exactly one place: the `then` branch of an `if` whose condition is the compiler invocation (`netspoc $PSRC $PCODE`), inside main; it is not called from an else branch, a loop condition or any other function.")
-    rule("R19.d", "Inside handle_success the rename of the work directory (`mv next $POLICY`) precedes every command that writes `current`; the link is created by `ln -s $POLICY $CURRENT` (target = the freshly renamed directory) after `rm -f $CURRENT`; no command between the mv and the ln changes directory or reassigns POLICY/CURRENT.")
+    rule("R19.d", "Inside handle_success the rename of the work directory (`mv next $POLICY`) precedes every command that writes `current`; the link is created by `ln -s $POLICY $CURRENT` (target = the freshly renamed directory) after `rm -f $CURRENT`, or switched atomically by `ln -sfn $POLICY $CURRENT.<tmp>; mv -T $CURRENT.<tmp> $CURRENT` (the -n, or a preceding rm of the temporary name, is required: otherwise a stale temporary link of a killed run is followed); no command between the mv and the ln changes directory or reassigns POLICY/CURRENT.")
     rule("R19.e", "Outside handle_success `$CURRENT` is only read (readlink, test, assignment of another variable); `next` is only built in prepare_next (rm -rf/mkdir $NEXT) and renamed in handle_success.")
     rule("R19.f", "Policy numbers: POLICY is assigned only as p$COUNT in prepare_next, after COUNT=$(expr $COUNT + 1), which follows the assignment of COUNT to the maximum of FCOUNT (POLICY file) and LCOUNT (link), recognised in its test-and-echo spelling; LCOUNT is derived from $(readlink $CURRENT).")
     path = os.path.join(REPO, "bin", "newpolicy.sh")
@@ -378,12 +378,29 @@ def main():
     # ---- R19.d
     hs = [c for c in cmds if c.func == "handle_success"]
     mv = [c for c in hs if c.words[:1] == ["mv"] and len(c.words) == 3 and c.words[1] in ("next", "$NEXT") and c.words[2] in ("$POLICY", "${POLICY}")]
+    CURW = ("$CURRENT", "${CURRENT}")
+    istmp = lambda w: any(w.startswith(c + ".") or w.startswith(c + "-") or w.startswith(c + "_") for c in CURW)
     ln = [c for c in hs if c.words[:1] == ["ln"] and cur(c.words[-1])]
-    rm = [c for c in hs if c.words[:1] == ["rm"] and any(cur(w) for w in c.words[1:])]
+    rm = [c for c in hs if c.words[:1] == ["rm"] and any(cur(w) and not istmp(w) for w in c.words[1:])]
     add("R19.d", "rename-exists", "bin/newpolicy.sh", "`mv next $POLICY` in handle_success", len(mv) == 1 and not mv[0].ctx, "rename missing or conditional")
-    add("R19.d", "link-exists", "bin/newpolicy.sh", "`ln -s $POLICY $CURRENT` in handle_success",
-        len(ln) == 1 and ln[0].words[1:] in (["-s", "$POLICY", "$CURRENT"], ["-sfn", "$POLICY", "$CURRENT"], ["-sf", "$POLICY", "$CURRENT"]) and not ln[0].ctx,
-        "link is not created to $POLICY")
+    # form A: rm -f $CURRENT; ln -s $POLICY $CURRENT.  form B (atomic switch): ln -sfn $POLICY $CURRENT.tmp; mv -T $CURRENT.tmp $CURRENT
+    okA = len(ln) == 1 and ln[0].words[1:] in (["-s", "$POLICY", "$CURRENT"], ["-sfn", "$POLICY", "$CURRENT"], ["-sf", "$POLICY", "$CURRENT"]) and not ln[0].ctx
+    okB, whyB = False, ""
+    if len(ln) == 1 and len(ln[0].words) == 4 and istmp(ln[0].words[3]) and ln[0].words[2] in ("$POLICY", "${POLICY}") and not ln[0].ctx:
+        opts, tmp = ln[0].words[1], ln[0].words[3]
+        swap = [c for c in hs if c.words[:1] == ["mv"] and len(c.words) == 4 and c.words[1].startswith("-") and "T" in c.words[1] and c.words[2] == tmp and c.words[3] in CURW]
+        cleared = [c for c in hs if c.words[:1] == ["rm"] and tmp in c.words[1:] and c.order < ln[0].order and not c.ctx]
+        if not (opts.startswith("-") and "s" in opts):
+            whyB = "temporary link is not symbolic"
+        elif not ("n" in opts or cleared):
+            whyB = "`ln` without -n follows a stale temporary link left by a killed run (and creates the new link inside the old policy directory); the switch then re-installs the old policy"
+        elif not (len(swap) == 1 and not swap[0].ctx and swap[0].order > ln[0].order):
+            whyB = "temporary link is not renamed onto $CURRENT by an unconditional `mv -T`"
+        else:
+            okB = True
+            ln = [swap[0]]  # the switching command for the ordering rules below
+    add("R19.d", "link-exists", "bin/newpolicy.sh", "`ln -s $POLICY $CURRENT` (or the atomic form `ln -sfn $POLICY $CURRENT.tmp; mv -T $CURRENT.tmp $CURRENT`) in handle_success",
+        okA or okB, "link is not created to $POLICY" + (": " + whyB if whyB else ""))
     if mv and ln:
         for w in [c for c in hs if writes_path(c, cur)]:
             add("R19.d", "rename-before|" + w.words[0], "bin/newpolicy.sh", "`%s` comes after the rename" % w.text, mv[0].order < w.order,
